@@ -7,12 +7,16 @@
 
   Model: `EG.Model.Sector`. The plane sector (`PlaneSector::new(angle_start, angle_sweep)`: an
   operation tag and two integer normal vectors) is a parameter; `|sweep| >= 360 degrees` is the
-  `EntirePlane` tag. Trigonometry is not modelled: what the angular claim needs from it is the
-  explicit hypothesis `NormalWithin n N eps` (the integer normal is within `eps` of the exact scaled
-  normal, componentwise).
+  `EntirePlane` tag. For the default (f32, micromath) build trigonometry is not modelled: what the
+  angular claim needs from it is the explicit hypothesis `NormalWithin n N eps` (the integer normal is
+  within `eps` of the exact scaled normal, componentwise). For the `fixed_point` build
+  `PlaneSector::new` IS modelled (`EG.Model.PlaneSectorNew`) and that hypothesis is discharged for every
+  raw angle: EG/Props/C18/FixedTrig.lean (`fixed_operation_tag`, `fixed_normal_near_table`,
+  `fixed_sector_angular`: table lines) and EG/Props/C18/SineTable.lean (`fixed_normal_exact` =
+  `NormalWithin .. 10.32` against `Real.sin` / `Real.cos`, `fixed_sector_angular_exact`: exact lines).
 
-  -- [V] |sweep| >= 360 degrees makes `PlaneSector::new` return the `EntirePlane` tag (f32 / fixed-point comparison `angle_sweep.abs() >= ANGLE_360DEG`): carried by correspondence + oracle only
-  -- [V] SectorAngle.AngularClaim (points within 1.5 px of the radial boundaries or inside the sweep; circle points further inside are included; diameters up to 128) for the normals the real trigonometry produces, default and fixed_point build: carried by correspondence + oracle only (proved here: the error-propagation lemma, exactness of the half-plane tests beyond the error margin, the bisector test is implied for non-parallel normals, degenerate sweeps give the forward ray)
+  -- [V] default (f32) build: |sweep| >= 360 degrees makes `PlaneSector::new` return the `EntirePlane` tag (f32 comparison `angle_sweep.abs() >= ANGLE_360DEG`; proved for the fixed_point build at the raw level: `fixed_operation_tag`): carried by correspondence + oracle only
+  -- [V] default (f32) build: SectorAngle.AngularClaim (points within 1.5 px of the radial boundaries or inside the sweep; circle points further inside are included; diameters up to 128) for the normals micromath's f32 trigonometry produces: carried by correspondence + oracle only (proved here: the error-propagation lemma, exactness of the half-plane tests beyond the error margin, the bisector test is implied for non-parallel normals, degenerate sweeps give the forward ray; for the fixed_point build the accuracy hypothesis is discharged: `fixed_normal_exact`, `fixed_sector_angular_exact`)
 -/
 import EG.Lemmas.SectorAngular
 namespace EG.C18
